@@ -291,6 +291,8 @@ def main(tier):
                 sig = {"what": "shortcut", "variant": nm}
                 chk.violation(bad + " | document:\n" + t[:1500], {"kind": "path_shortcut", "variant": nm, "file": t,
                               "inline": forms[0][1], "observed": o, "signature": sig}, sig)
+    import pathspec
+    pathspec.run(chk, tier, "C13")
     chk.extra["shortcut_form_groups"] = len(shorts)
     chk.extra["documents_with_declared_path_variables"] = withvars
     if meta:
@@ -305,6 +307,10 @@ def main(tier):
 def replay(path):
     rp = json.load(open(path))["replay"]
     chk = Check("C13", "quick")
+    if rp.get("kind") == "pathspec":
+        import pathspec
+        pathspec.replay(chk, "C13", rp)
+        return chk.finish()
     chk.evaluations = 1
     o = harness("run", [rel.case("a", rp["file"])])["a"]
     print("now:", rel.describe(o))
